@@ -191,6 +191,7 @@ class Repo:
         self.functions: dict[str, FuncInfo] = {}
         self._by_class_name: dict[str, list[ClassInfo]] = {}
         self._methods_by_name: dict[str, list[FuncInfo]] = {}
+        self.normalised: dict[str, int] = {}
         self._load()
 
     # ------------------------------------------------------------------ loading
@@ -211,6 +212,11 @@ class Repo:
                 tree = ast.parse(src, filename=str(f))
             except SyntaxError as e:  # the tree must compile
                 raise AnalysisError(f"syntax error in {rel}: {e}") from e
+            from .normalise import normalise
+
+            tree, stats = normalise(tree)
+            for k_, v_ in stats.items():
+                self.normalised[k_] = self.normalised.get(k_, 0) + v_
             m = ModuleInfo(modname, f, rel, src, tree)
             self.modules[modname] = m
         for m in self.modules.values():
